@@ -286,11 +286,15 @@ func ruleBatchIdsForwarded(r *Report) {
 	// optimistic loop: for every root segment, obsoletes[seg.id] = seg.segment.DocNumbers(ids)
 	okLoop := false
 	pg := buildCFG(pinfo, ps.Decl.Body)
-	for _, rs := range rangesOverField(pinfo, ps.Decl.Body, "IndexSnapshot", "segment") {
-		d := newDeps(pinfo, rs.Body)
-		ast.Inspect(rs.Body, func(n ast.Node) bool {
+	{
+		d := newDeps(pinfo, ps.Decl.Body)
+		ast.Inspect(ps.Decl.Body, func(n ast.Node) bool {
 			as, isAs := n.(*ast.AssignStmt)
 			if !isAs || len(as.Lhs) != 1 {
+				return true
+			}
+			// inside a loop over the root's segments (range or index form)
+			if loopOverFieldAround(pinfo, ps.Decl.Body, as, "IndexSnapshot", "segment") == nil {
 				return true
 			}
 			ix, isIx := ast.Unparen(as.Lhs[0]).(*ast.IndexExpr)
@@ -317,11 +321,15 @@ func ruleBatchIdsForwarded(r *Report) {
 			if !isObs {
 				return true
 			}
-			if !isField(pinfo, ix.Index, "SegmentSnapshot", "id") || objOf(pinfo, ast.Unparen(ix.Index).(*ast.SelectorExpr).X) != objOf(pinfo, rs.Value) {
+			if !isField(pinfo, ix.Index, "SegmentSnapshot", "id") {
+				return true
+			}
+			// the key is the id of the loop's own element: the range value, root.segment[i], or a local holding it
+			if coll, _, okE := elemOfCollection(pinfo, ps.Decl.Body, resolveCopies(pinfo, ps.Decl.Body, ast.Unparen(ix.Index).(*ast.SelectorExpr).X)); !okE || !isField(pinfo, coll, "IndexSnapshot", "segment") {
 				return true
 			}
 			sl := d.SliceOfExpr(as.Rhs[0])
-			if sliceHasSuffix(sl, ".DocNumbers") && sl[varKeyOf(idsParam)] {
+			if sliceHasSuffix(sl, ".DocNumbers") && (sl[varKeyOf(idsParam)] || (stored && sl["fld:segmentIntroduction.ids"])) {
 				// only error-exit guards allowed
 				extra := false
 				for _, f := range pg.RawGuardsOf(as) {
@@ -441,6 +449,14 @@ func ruleUpsidedownWriters(r *Report) {
 		return func(info *types.Info, n ast.Node) (string, bool) {
 			if s, ok := n.(*ast.IncDecStmt); ok && s.Tok == tok && isField(info, s.X, "UpsideDownCouch", "docCount") {
 				return "docCount" + tok.String(), true
+			}
+			// `docCount += 1` / `docCount -= 1` (a shared adjust helper called with constants)
+			if as, ok := n.(*ast.AssignStmt); ok && len(as.Lhs) == 1 && len(as.Rhs) == 1 && isField(info, as.Lhs[0], "UpsideDownCouch", "docCount") {
+				if k, isC := intConst(info, as.Rhs[0]); isC && k == 1 {
+					if (tok == token.INC && as.Tok == token.ADD_ASSIGN) || (tok == token.DEC && as.Tok == token.SUB_ASSIGN) {
+						return "docCount" + tok.String(), true
+					}
+				}
 			}
 			return "", false
 		}
